@@ -661,6 +661,10 @@ pub fn drive_tape(
     let next = AtomicUsize::new(0);
     let results: Mutex<Vec<(usize, Stats, Option<Violation>)>> = Mutex::new(vec![]);
     let stop = AtomicBool::new(false);
+    // smallest index of a shard that has reported a violation: the violation of the smallest failing shard is
+    // the one reported, so shards with a larger index have nothing to add and end at once (deterministic: the
+    // winning shard's search and shrinking never depend on the others)
+    let best = AtomicUsize::new(usize::MAX);
     let tier = run.tier;
 
     std::thread::scope(|scope| {
@@ -688,13 +692,16 @@ pub fn drive_tape(
                 config.rng_seed = RngSeed::Fixed(seed);
                 // (a case of a `huge_*` sub-check costs up to 0.1 s: fewer shrink steps, a less minimal replay; the
                 // bound limits minimisation only, never a verdict)
-                config.max_shrink_iters = if sub.name.starts_with("huge") { 300 } else { 20_000 };
+                config.max_shrink_iters = if sub.name.starts_with("huge") { 60 } else { 20_000 };
                 config.max_shrink_time = 0;
                 config.verbose = 0;
                 config.source_file = None;
                 let mut runner = TestRunner::new(config);
                 let strat = proptest::collection::vec(proptest::arbitrary::any::<u32>(), len + AUX);
                 let res = runner.run(&strat, |tape| {
+                    if best.load(Ordering::SeqCst) < shard {
+                        return Ok(());
+                    }
                     let _g = SlotGuard::enter(shard);
                     let rep = run_case(f, &tape, false, tier);
                     let mut st = state.borrow_mut();
@@ -765,6 +772,7 @@ pub fn drive_tape(
                             case: rep.desc.unwrap_or_default(),
                         });
                         stop.store(true, Ordering::SeqCst);
+                        best.fetch_min(shard, Ordering::SeqCst);
                     }
                     Err(TestError::Abort(r)) => {
                         violation = Some(Violation {
